@@ -121,6 +121,18 @@ def predicates(c, ri, rm):
             if beta < min(cb[y] for cb, _ in cs) - t / ux:
                 out.append("apex belief mass below the smallest conditional belief at y=%d" % y)
                 break
+        # "the MOST uncertain opinion with that projection whose beliefs are at least min_x b(y|x)": the apex
+        # uncertainty is min over y with a(y) > 0 of (P(y||a_X) - min_x b(y|x)) / a(y), computed here from the
+        # definition (independently of the model), so u = sum_x bx u(y|x) + ux * u_apex
+        if not out:
+            pa = [sum(ax[x] * (cs[x][0][y] + ay[y] * cs[x][1]) for x in range(nx)) for y in range(ny)]
+            bounds = [(pa[y] - min(cb[y] for cb, _ in cs)) / ay[y] for y in range(ny) if ay[y] > num.EPS[c.ty]]
+            if bounds and all(q == 0 or q > num.EPS[c.ty] for q in ay):
+                u_apex = min(bounds)
+                want_u = sum(bx[x] * cs[x][1] for x in range(nx)) + ux * u_apex
+                if abs(u - want_u) > t * 4:
+                    out.append("uncertainty %r is not that of the mixture plus the most uncertain (apex) opinion, %s" % (
+                        vals[ny], float(want_u)))
     return out
 
 
